@@ -331,7 +331,7 @@ fn record_survey<P: Prop>(p: &P, c: &P::Case, f: Failure, st: &mut Stats) {
     let _ = ex;
 }
 
-fn shrink_and_report<P: Prop>(p: &P, c: P::Case, f: Failure, env: &Env, origin: &str) -> Violation {
+pub fn shrink_and_report<P: Prop>(p: &P, c: P::Case, f: Failure, env: &Env, origin: &str) -> Violation {
     let sig = f.sig.clone();
     let mut budget = 4000u32;
     let mut dummy_inflight = Inflight { file: None };
